@@ -49,13 +49,13 @@ Expected(a) == LET x == Alpha[a] IN
 (* a stage automaton that panicked standalone has no successor: do not follow *)
 StageAlive == fs # 0 /\ ss # 0 /\ es # 0
 CInit == K!KbInit /\ i = 1
-CNext == \E a \in 1..NA : /\ G[i].expanded /\ G[i].post[a] # 0
+CNext == \E a \in 1..NA : /\ G[i].expanded /\ G[i].post[a] # 0 /\ StageExplored(fs, ss, es)
                           /\ Step(a) /\ i' = G[i].post[a]
                           /\ fs' # 0 /\ ss' # 0 /\ es' # 0
 CSpec == CInit /\ [][CNext]_cvars
 
 Conforms ==
-  IF ~G[i].expanded
+  IF ~G[i].expanded \/ ~StageExplored(fs, ss, es)
   THEN BadB([prop |-> "C18", kind |-> "unbounded", comp |-> Comp, access |-> G[i].access])
   ELSE ReportAllB({ a \in 1..NA : G[i].out[a] # Expected(a) },
          LAMBDA a : [prop |-> "C18", kind |-> "kb-io", comp |-> Comp, access |-> G[i].access, input |-> Alpha[a],
@@ -63,7 +63,8 @@ Conforms ==
                      observed |-> G[i].out[a], expected |-> Expected(a),
                      note |-> "composite result differs from the three real stages wired in sequence"])
 ObsMatches ==
-  (G[i].obs[1] = ImEMods(es) /\ G[i].obs[2] = ImEMode(es))
+  ~StageExplored(fs, ss, es)
+  \/ (G[i].obs[1] = ImEMods(es) /\ G[i].obs[2] = ImEMode(es))
   \/ BadB([prop |-> "C18", kind |-> "kb-getter", comp |-> Comp, access |-> G[i].access,
           ctx |-> <<fs, ss, es>>, observed |-> G[i].obs, expected |-> <<ImEMods(es), ImEMode(es)>>])
 
